@@ -137,6 +137,12 @@ def run(ctx):
     for part in ("random", "threshold"):
         hf = ctx.path("hist-%s.ndjson" % part)
         ctx.vh(["c12-hist", "-n", str(hn), "-keys", str(hk), "-out", hf, "-part", part], timeout=3000)
+        lines = open(hf).read().rstrip("\n").split("\n")
+        if lines and '"panic"' in lines[-1]:
+            last = json.loads(lines[-1])
+            ctx.violation("hist:%s/panic" % part, "the table panics after %d logged events of the %s history: %s" % (len(lines) - 1, part, last["panic"][:200]),
+                          {"seed": ctx.seed, "n": hn, "keys": hk, "part": part})
+            open(hf, "w").write("\n".join(lines[:-1]) + "\n")
         parts[part] = hf
 
     def vhist(part):
